@@ -117,6 +117,7 @@ def num_eq(a, b):
     return abs(fa - fb) <= ATOL + RTOL * max(abs(fa), abs(fb))
 
 
+COMPARE_ALIASING = True     # off in the run-time monitor: copy.deepcopy of the arguments does not preserve numpy view relations
 NOISE = None      # {path: absolute noise level} while a sensitivity-aware comparison is running
 COLLECT = None    # {path: max |difference|} while the noise of a perturbed run is being measured
 
@@ -153,10 +154,11 @@ def diff(a, b, path, out, limit=12, ignore=()):
                 return
             if (a[2] == 'b') != (b[2] == 'b'):
                 out.append('%s: dtype kind %s vs %s' % (path, a[2], b[2]))
-            if a[4] != b[4]:
-                out.append('%s: aliases different storage (buffer #%d vs #%d)' % (path, a[4], b[4]))
-            elif a[5] != b[5] or a[6] != b[6]:
-                out.append('%s: different view of the same storage' % path)
+            if COMPARE_ALIASING:
+                if a[4] != b[4]:
+                    out.append('%s: aliases different storage (buffer #%d vs #%d)' % (path, a[4], b[4]))
+                elif a[5] != b[5] or a[6] != b[6]:
+                    out.append('%s: different view of the same storage' % path)
             if COLLECT is not None:
                 COLLECT[path] = max([COLLECT.get(path, 0.0)] + [_abs_diff(x, y) for x, y in zip(a[3], b[3])
                                                              if isinstance(x, (int, float)) and isinstance(y, (int, float))])
